@@ -372,10 +372,13 @@ func (s *Service) retrieveExistingAndAssignKeys(
 			if idx < 0 {
 				continue
 			}
-			(*channels)[idx] = e
-			if incCounterBy != 0 {
+			// Only the first stored channel that fills a slot frees a key: a second
+			// stored channel with the same name lands on the same slot, and any other
+			// entry of the batch carrying that name still needs a key of its own.
+			if (*channels)[idx].LocalKey == 0 && incCounterBy != 0 {
 				incCounterBy--
 			}
+			(*channels)[idx] = e
 		}
 	}
 	nextCounterValue, err := counter.add(ctx, incCounterBy)
